@@ -184,6 +184,7 @@ class Run:
         self.listener: Optional[FaultListener] = None
         self.capped = False
         self.obs: Dict[str, Any] = {}
+        self.probe: Optional[Dict[str, Any]] = None
 
     def op(self, name: str) -> None:
         proc = self.proc
@@ -224,6 +225,10 @@ class Run:
                     if proc.has_terminated() or closing > 20:
                         break
                     closing += 1
+                    if ENV.injected is not None and self.plan is not None and self.plan[0] in PAUSE_PLAY and self.probe is None:
+                        # "leaves the process live and controllable": it can be paused and played again
+                        self.probe_control()
+                        continue
                     if script:
                         self.op(script.pop(0)[1])
                     elif proc.paused:
@@ -245,6 +250,29 @@ class Run:
             self.observe()
         finally:
             loop.shutdown()
+
+    def probe_control(self) -> None:
+        proc, loop = self.proc, self.loop
+        assert loop is not None
+        probe: Dict[str, Any] = {'was_paused': proc.paused}
+        ENV.phase = 'probe'
+        try:
+            if proc.paused:
+                probe['play'] = proc.play()
+                loop.drain()
+                probe['paused_after_play'] = proc.paused
+            else:
+                ret = proc.pause('probe')
+                loop.drain()
+                probe['pause'] = ret
+                probe['paused_after_pause'] = proc.paused or proc.has_terminated()
+                probe['play'] = proc.play()
+                loop.drain()
+                probe['paused_after_play'] = proc.paused
+        except Exception as exc:  # noqa: BLE001
+            probe['raised'] = exc
+        ENV.phase = 'run'
+        self.probe = probe
 
     def observe(self) -> None:
         proc = self.proc
@@ -323,6 +351,11 @@ def judge(scenario: str, plan: Tuple[str, int, str], run: Run, twin: Run) -> Lis
             violate('pause-play:not-reported-to-requester', repr(run.call_results), kind=kind)
         if loop_errors:
             violate('pause-play:escapes-into-loop', loop_errors, kind=kind)
+        probe = run.probe
+        if probe is not None:
+            bad = 'raised' in probe or probe.get('paused_after_play') or probe.get('paused_after_pause') is False
+            if bad:
+                violate('pause-play:not-controllable-afterwards', {k: repr(v) for k, v in probe.items()}, kind=kind)
         # ... and the process stays live and controllable: it was played/resumed to completion by the closing sequence
         if obs['state'] == PS.EXCEPTED and obs['exception'] is fault:
             violate('pause-play:process-excepted', None, kind=kind)
